@@ -131,6 +131,8 @@ pub fn exec(f: &[&str]) -> Option<String> {
             if crate::ops_text::float_tokens(&text) != fl { return Some("a converted float is not the (correctly rounded) double its literal in the rendering denotes".into()); }
             let back: Value = (&j).into();
             if back != v { return Some("converting back is not equal to the original".into()); }
+            let back_owned: Value = j.clone().into();
+            if back_owned != v || back_owned.to_vec() != back.to_vec() { return Some("the owned conversion From<serde_json::Value> differs from the borrowed one".into()); }
             let again: J = back.into();
             if !sj_eq(&again, &j, 0) { return Some("conversions are not mutually inverse".into()); }
             match (jsonb::to_serde_json_object(&doc), &j) {
